@@ -38,6 +38,8 @@ QUERIES = {
     "poscar": lambda c: proj_poscar(c.to_poscar_string()),
     "as_P1": lambda c: c.as_P1(),
     "cartesian_symops": lambda c: c.cartesian_symmetry_operations(),
+    # degenerate windows: a slab of exactly one cell (the origin cell, another cell)
+    "slab_one_cell": lambda c: (c.slab(bounds=((0, 0, 0), (0, 0, 0))), c.slab(bounds=((1, 2, -1), (1, 2, -1)))),
     # further read-only queries of the public API (reflection lists are refused for rhombohedral axes - then a fresh crystal refuses too)
     "unique_reflections": lambda c: proj_reflections(c.unique_reflections()),
     "molecule_dict": lambda c: c.molecule_dict(),
